@@ -165,8 +165,10 @@ def is_bad(text, signature=None):
 
 def classify(shrunk):
     """Known-finding predicates over the shrunk witness."""
-    if re.search(r"'(\\.|[^'\\\n])*/[/*]", shrunk) and re.search(r"'[^'\n]*/[/*][^'\n]*'", shrunk):
-        return "comment-opener-inside-character-constant"
+    spliced = shrunk.replace("\\\n", "")        # the literal may be split by a line continuation
+    for t in (shrunk, spliced):
+        if re.search(r"'(\\.|[^'\\\n])*/[/*]", t) and re.search(r"'[^'\n]*/[/*][^'\n]*'", t):
+            return "comment-opener-inside-character-constant"
     if re.search(r"/\\\n", shrunk):
         return "slash-before-line-continuation"
     return None
